@@ -449,9 +449,11 @@ class ExcelCompiler:
 
         cell_or_range = self.cell_map[address]
 
-        if cell_or_range.value != value:  # pragma: no branch
+        old_value = cell_or_range.value
+        if old_value != value or (
+                isinstance(old_value, bool) != isinstance(value, bool)):
             # need to be able to 'set' an empty cell, set to not None
-            cell_or_range.value = value
+            cell_or_range.value = 0 if value is None else value
 
             # reset the node + its dependencies
             if not self.cycles:
